@@ -48,6 +48,15 @@ func lsFor(s *store.Store) *ipld.LinkSystem {
 	return ls
 }
 
+// lsReifying is the "global reification" configuration: every node the link
+// system loads is passed through unixfsnode.Reify (NodeReifier), so child
+// blocks reach the library already interpreted.
+func lsReifying(s *store.Store) *ipld.LinkSystem {
+	ls := lsFor(s)
+	ls.NodeReifier = unixfsnode.Reify
+	return ls
+}
+
 // loadRoot loads the root block un-reified.
 func loadRoot(ls *ipld.LinkSystem, c cid.Cid) (ipld.Node, error) {
 	return ls.Load(ipld.LinkContext{Ctx: context.Background()}, cidlink.Link{Cid: c}, protoFor(c))
